@@ -297,7 +297,7 @@ class ConnGen:
         if tl is None:
             return self.step_bind(d, iface=d.choice(['xdg_toplevel', 'xdg_toplevel', 'zwlr_layer_shell_v1', 'wl_surface']))
         name = d.choice(['set_title', 'set_app_id'])
-        return dict(sent=self.sent(False), iface='xdg_toplevel', id=tl, name=name, args=[['str', d.choice(STRS)]])
+        return dict(sent=self.sent(False), iface='xdg_toplevel', id=tl, name=name, args=[['str', '' if d.chance(0.25) else d.choice(STRS)]])
 
     def step_retype(self, d):
         """re-create a freed client id with a *different* interface and make the next message target it"""
@@ -422,9 +422,11 @@ def history(d, nconn=None, nmsg=None, tagged=None, profile=None, t0=None, gaps=N
     conns = [ConnGen(tags[k], d.choice(['client', 'server']), profile) for k in range(nconn)]
     t = t0 if t0 is not None else d.choice([0, 1000, 123456789, 4_000_000_000, d.int(0, 4_000_000_000)])
     out = []
-    for _ in range(nmsg):
+    burst0 = d.int(1, 6) if d.chance(0.2) else 0       # several messages carrying the very time of the first one
+    for k in range(nmsg):
         c = d.choice(conns)
-        t = min(t + next_gap(d, gaps), T_MAX)     # stated bound: no 32-bit wrap-around of libwayland's clock
+        if k > 0 and k > burst0:
+            t = min(t + next_gap(d, gaps), T_MAX)     # stated bound: no 32-bit wrap-around of libwayland's clock
         m = c.next(d)
         m['conn'] = c.tag
         m['t_us'] = t
